@@ -38,6 +38,10 @@ COND_FORMS = [
     ("address:str", lambda V: [("address", ":is", "From", V)]),
     ("address:lists", lambda V: [("address", ":contains", ["From", "To"], [V, "k"])]),
     ("address:notis", lambda V: [("address", ":notis", "From", V)]),
+    # one argument a list, the other a plain string (each must come back in the kind it was given)
+    ("address:list+str", lambda V: [("address", ":is", ["From", "Reply-To"], V)]),
+    ("address:str+list", lambda V: [("address", ":notcontains", "From", [V, "k"])]),
+    ("address:list1+str", lambda V: [("address", ":contains", ["From"], V)]),
     ("body:raw", lambda V: [("body", ":raw", ":contains", V)]),
     ("body:text2", lambda V: [("body", ":text", ":contains", V, "k")]),
     ("body:raw-not", lambda V: [("body", ":raw", ":notcontains", V)]),
